@@ -3,7 +3,7 @@
 From Coq Require Import List ZArith NArith Bool String.
 From GrolGen Require Import Gen_Consts.
 From GrolModel Require Import Ast Lexer Parser Printer AstWf Frontend.
-From GrolProofs Require Import Front_tables Printer_proofs Parser_proofs.
+From GrolProofs Require Import Front_tables Printer_proofs Parser_proofs Parser_nopanic Front_nopanic.
 Import ListNotations.
 
 (* every parse function registered in parser.New is one the parser model implements (so the model
@@ -21,6 +21,17 @@ Proof. exact printer_tokens_have_prec_ok. Qed.
 Theorem C08_print_total : forall (stmts : list (option node)) (compact allparens : bool),
   program_printable stmts = true -> exists out, print_program compact allparens stmts = Some out.
 Proof. exact print_total. Qed.
+
+(* lexing + parsing never panic: for every byte string, both lexer modes, every number oracle (the
+   parser's own assertion in parseComment and its dispatch tables included) *)
+Theorem C08_front_end_never_panics : forall (conv : numconv) (lineMode : bool) (src : bytes) w,
+  front_parse conv lineMode src <> PPanic w.
+Proof. exact front_never_panics. Qed.
+
+(* the parser alone, on any token stream in which a line comment is followed by a new line or the end *)
+Theorem C08_parser_never_panics : forall conv fuel end_type toks,
+  comment_shaped end_type toks = true -> forall w, parse_program conv fuel end_type toks <> PPanic w.
+Proof. exact parse_never_panics. Qed.
 
 (* a parse that reports no error and asks for no continuation returns a tree without missing children:
    for every byte string, both lexer modes, every number-conversion oracle (and every fuel) *)
@@ -51,6 +62,7 @@ Example C08_clean_example :
 Proof. vm_compute. reflexivity. Qed.
 
 Print Assumptions C08_tables_known.
+Print Assumptions C08_front_end_never_panics.
 Print Assumptions C08_clean_tree_has_no_missing_children.
 Print Assumptions C08_clean_tree_prints.
 Print Assumptions C08_printer_tokens_have_prec.
